@@ -39,14 +39,16 @@ func (c03) Floors(tier string, c map[string]int64) []string {
 }
 
 type c03include struct {
-	Res     *ResSpec `json:"res"`
-	Primary int      `json:"primary_index"` // >= 0: pass the primary member itself (-1: a fresh object)
-	MarshalAfter bool `json:"marshal_after,omitempty"` // MarshalDocument is called right after this Include
+	Res          *ResSpec `json:"res"`
+	Primary      int      `json:"primary_index"`           // >= 0: pass the primary member itself (-1: a fresh object)
+	MarshalAfter bool     `json:"marshal_after,omitempty"` // MarshalDocument is called right after this Include
 }
 
 func (m c03) marshalAndValidate(c *Ctx, d *DocSpec, incl []c03include, useRange bool, tag string) {
 	c.Count("evaluations")
-	desc := func() string { return clip(jsonStr(map[string]any{"doc": d, "include_calls": incl, "range_result": useRange}), 3500) }
+	desc := func() string {
+		return clip(jsonStr(map[string]any{"doc": d, "include_calls": incl, "range_result": useRange}), 3500)
+	}
 	var out []byte
 	var err error
 	viaInclude := incl != nil
@@ -299,4 +301,3 @@ func (m c03) Directed(c *Ctx) {
 	d := &DocSpec{Schema: s, Kind: "resource", Primary: []*ResSpec{r1}, Included: []*ResSpec{r2}, Errors: []ErrSpec{{Title: "boom"}}, Prefix: "https://example.org", Fields: map[string][]string{"t": {"a"}}, RelData: map[string][]string{}, Frags: []string{"t", "1"}}
 	m.marshalAndValidate(c, d, nil, false, "as-given")
 }
-
